@@ -116,13 +116,10 @@ Qed.
 
 Lemma type_nospace W u c : wf_local W u = true -> type_of u = Some c -> nospace (fst c) = true.
 Proof.
-  intros Hwf Hc. destruct u; try discriminate Hc; cbn [type_of] in Hc.
-  - destruct k; inversion Hc; subst; reflexivity.
-  - inversion Hc; subst; reflexivity.
-  - inversion Hc; subst; reflexivity.
-  - destruct k; inversion Hc; subst; reflexivity.
-  - inversion Hc; subst; reflexivity.
-  - inversion Hc; subst; reflexivity.
+  intros Hwf Hc.
+  destruct u; try discriminate Hc; cbn [type_of] in Hc;
+    try (inversion Hc; subst; reflexivity);
+    try (destruct k; inversion Hc; subst; reflexivity).
   - inversion Hc; subst. cbn [wf_local] in Hwf. apply andb_true_iff in Hwf as [_ H]. exact H.
   - inversion Hc; subst. cbn [wf_local] in Hwf. destruct (find_data W c); [|discriminate Hwf].
     apply andb_true_iff in Hwf as [_ H]. exact H.
@@ -172,7 +169,7 @@ Theorem pycode_evals_back W o :
   exists o', eval W (env_of_imports (imports W o)) (repr W o) = Some o' /\ veq true o' o = true.
 Proof.
   intros Hwf Hg. unfold guard in Hg.
-  apply andb_true_iff in Hg as [Hg Hinit]. apply andb_true_iff in Hg as [Hg Hraw].
+  apply andb_true_iff in Hg as [Hg Hstd]. apply andb_true_iff in Hg as [Hg Hinit]. apply andb_true_iff in Hg as [Hg Hraw].
   apply andb_true_iff in Hg as [Hg Himp]. apply andb_true_iff in Hg as [Harr Hen].
   exists (norm W o). split.
   - apply eval_repr_norm; [apply imports_builtins_free; exact Himp|].
@@ -180,6 +177,7 @@ Proof.
     + eapply forallb_In; [exact Hwf|exact Hu].
     + eapply forallb_In; [exact Hen|exact Hu].
     + eapply forallb_In; [exact Hraw|exact Hu].
+    + eapply forallb_In; [exact Hstd|exact Hu].
     + apply imports_resolve; assumption.
   - apply veq_norm. intros u Hu. unfold ok2. repeat split.
     + eapply forallb_In; [exact Hwf|exact Hu].
@@ -206,6 +204,8 @@ Proof. reflexivity. Qed.
 Lemma heads_EDict kv : heads (EDict kv) = heads_pairs kv.
 Proof. reflexivity. Qed.
 
+Definition gh (u : value) : bool := g_enum_local u && g_std_local u.
+
 Definition named (W : world) (v : value) (n : str) : Prop :=
   is_builtin n = true \/ exists u c, In u (subs W v) /\ type_of u = Some c /\ hd [] (snd c) = n.
 
@@ -213,12 +213,12 @@ Lemma heads_map_EInt l : flat_map heads (map EInt l) = [].
 Proof. induction l; cbn; auto. Qed.
 
 Lemma heads_scalar W v n :
-  is_container v = false -> g_enum_local v = true -> In n (heads (repr W v)) -> named W v n.
+  is_container v = false -> gh v = true -> In n (heads (repr W v)) -> named W v n.
 Proof.
-  intros Hc Hen Hn.
+  intros Hc Hgh Hn. unfold gh in Hgh. apply andb_true_iff in Hgh as [Hen Hstd].
   assert (Self : forall c, type_of v = Some c -> hd [] (snd c) = n -> named W v n).
   { intros c H1 H2. right. exists v, c. split; [apply subs_self|auto]. }
-  destruct v; try discriminate Hc; cbn [repr] in Hn; try (cbn in Hn; destruct Hn; fail).
+  destruct v; try discriminate Hc; try discriminate Hstd; cbn [repr] in Hn; try (cbn in Hn; destruct Hn; fail).
   - (* float *) destruct (fl_isfinite bits); [destruct Hn|].
     rewrite heads_ECall in Hn. cbn [flat_map heads heads_kws app] in Hn.
     destruct Hn as [<-|[]]. left. reflexivity.
@@ -245,9 +245,9 @@ Lemma named_mono W v v' n :
 Proof. intros Hs [Hb|[u [c [Hu Hc]]]]; [left; exact Hb|right; exists u, c; split; auto]. Qed.
 
 Lemma heads_list W (Q : value -> Prop) l n :
-  Forall (fun x => (forall u, In u (subs W x) -> g_enum_local u = true) ->
+  Forall (fun x => (forall u, In u (subs W x) -> gh u = true) ->
                    forall n, In n (heads (repr W x)) -> named W x n) l ->
-  (forall u, In u (flat_map (subs W) l) -> g_enum_local u = true) ->
+  (forall u, In u (flat_map (subs W) l) -> gh u = true) ->
   In n (flat_map heads (map (repr W) l)) ->
   exists x, In x l /\ named W x n.
 Proof.
@@ -257,7 +257,7 @@ Proof.
 Qed.
 
 Lemma heads_repr W :
-  forall v, (forall u, In u (subs W v) -> g_enum_local u = true) ->
+  forall v, (forall u, In u (subs W v) -> gh u = true) ->
   forall n, In n (heads (repr W v)) -> named W v n.
 Proof.
   induction v using value_ind'; intros Hen n Hn.
@@ -277,7 +277,7 @@ Proof.
         [intros u Hu; apply Hen; cbn; right; exact Hu|exact Hn|].
       eapply named_mono; [|exact Hnm]. intros u Hu. eapply subs_VSet_in; eauto.
   - rewrite repr_VDict, heads_EDict in Hn.
-    assert (Hen' : forall u, In u (subs_pairs W kv) -> g_enum_local u = true)
+    assert (Hen' : forall u, In u (subs_pairs W kv) -> gh u = true)
       by (intros u Hu; apply Hen; rewrite subs_VDict; right; exact Hu).
     assert (X : exists k x, In (k, x) kv /\ (named W k n \/ named W x n)).
     { clear Hen. induction H as [|[k x] r [Hk Hx] Hr IH]; cbn in Hn; [destruct Hn|].
@@ -297,7 +297,7 @@ Proof.
     apply in_app_or in Hn as [Hn|Hn].
     + right. exists (VObj c fs), c. split; [apply subs_self|]. split; [reflexivity|].
       destruct (snd c) as [|x q]; [destruct Hn|]. destruct Hn as [<-|[]]. reflexivity.
-    + assert (Hen' : forall u, In u (subs_fields W fds fs) -> g_enum_local u = true)
+    + assert (Hen' : forall u, In u (subs_fields W fds fs) -> gh u = true)
         by (intros u Hu; apply Hen; rewrite subs_VObj, Ef; right; exact Hu).
       assert (X : exists u c0, In u (subs_fields W fds fs) /\ type_of u = Some c0 /\ hd [] (snd c0) = n
                   \/ is_builtin n = true).
@@ -318,12 +318,14 @@ Proof.
 Qed.
 
 Theorem imports_sufficient W o :
-  wf W o = true -> g_enum W o = true ->
+  wf W o = true -> g_enum W o = true -> g_std W o = true ->
   forall n, In n (heads (repr W o)) ->
   is_builtin n = true \/ exists m, In (m, n) (imports W o).
 Proof.
-  intros Hwf Hen n Hn.
-  destruct (heads_repr W o (fun u Hu => forallb_In _ _ _ Hen Hu) n Hn) as [Hb|[u [c [Hu [Hc Hh]]]]];
+  intros Hwf Hen Hstd n Hn.
+  assert (Hgh : forall u, In u (subs W o) -> gh u = true).
+  { intros u Hu. unfold gh. rewrite (forallb_In _ _ _ Hen Hu), (forallb_In _ _ _ Hstd Hu). reflexivity. }
+  destruct (heads_repr W o Hgh n Hn) as [Hb|[u [c [Hu [Hc Hh]]]]];
     [left; exact Hb|].
   right. exists (fst c). unfold imports. apply sort_lines_in_rev; [apply pairs_ns; exact Hwf|].
   apply in_map_iff. exists c. split; [unfold import_pair; rewrite Hh; reflexivity|eapply types_in; eauto].
